@@ -10,6 +10,9 @@
 (*   "nest"   a re-entrant / aliasing history on ONE real QGauss object: [ctor, ev :   *)
 (*            Seq(event)]; the nest machine (NestSucc) is stepped through the events   *)
 (*            the same way                                                             *)
+(*   "thr"    calls from several threads on the module function / one shared object:   *)
+(*            [ctor, ev : Seq(start | finish)], stepped with ThrSucc                   *)
+(*   "scale"  one QGauss2 grid across the 2^20-point boundary (ScaleFailing)           *)
 (*   "ret"    one call whose integrand returned a given shape / representation         *)
 (*            (RetFailing)                                                             *)
 (* Rejected records are printed with the names of the failing clauses                  *)
@@ -30,12 +33,14 @@ PickTrace == blk > 0 /\ tid = 0
              /\ \E t \in ((blk - 1) * BlockSize + 1)..VMin2(blk * BlockSize, NT) :
                    /\ tid' = t /\ blk' = blk /\ l' = 0 /\ P' = {}
                    /\ S' = IF Traces[t].k = "seq" THEN {CacheNew(Traces[t].ctor)}
-                           ELSE IF Traces[t].k = "nest" THEN {NestNew(Traces[t].ctor)} ELSE {}
-IsHist(r) == r.k = "seq" \/ r.k = "nest"
+                           ELSE IF Traces[t].k = "nest" THEN {NestNew(Traces[t].ctor)}
+                           ELSE IF Traces[t].k = "thr" THEN {ThrNew(Traces[t].ctor)} ELSE {}
+IsHist(r) == r.k = "seq" \/ r.k = "nest" \/ r.k = "thr"
 StepEv == /\ tid > 0 /\ IsHist(Traces[tid]) /\ l < Len(Traces[tid].ev) /\ S # {}
           /\ l' = l + 1 /\ P' = S
           /\ S' = IF Traces[tid].k = "seq" THEN UNION {CallSucc(s, Traces[tid].ev[l + 1]) : s \in S}
-                   ELSE UNION {NestSucc(s, Traces[tid].ev[l + 1]) : s \in S}
+                   ELSE IF Traces[tid].k = "nest" THEN UNION {NestSucc(s, Traces[tid].ev[l + 1]) : s \in S}
+                   ELSE UNION {ThrSucc(s, Traces[tid].ev[l + 1]) : s \in S}
           /\ UNCHANGED <<blk, tid>>
 Next == PickBlock \/ PickTrace \/ StepEv
 
@@ -44,6 +49,7 @@ FailingRec(r) ==
     ELSE IF r.k = "data" THEN DataFailing(r)
     ELSE IF r.k = "tensor" THEN TensorFailing(r)
     ELSE IF r.k = "ret" THEN RetFailing(r)
+    ELSE IF r.k = "scale" THEN ScaleFailing(r)
     ELSE {"unknown_record_kind"}
 
 Check == tid > 0 =>
@@ -51,7 +57,8 @@ Check == tid > 0 =>
     IF IsHist(r)
     THEN (l > 0 /\ S = {}) =>
             PrintT(<<"REJECT", ToJson([id |-> r.id,
-                      failing |-> {(IF r.k = "seq" THEN CallClause(s, r.ev[l]) ELSE NestClause(s, r.ev[l])) \o "@" \o ToString(l) : s \in P}])>>)
+                      failing |-> {(IF r.k = "seq" THEN CallClause(s, r.ev[l]) ELSE IF r.k = "nest" THEN NestClause(s, r.ev[l])
+                                    ELSE ThrClause(s, r.ev[l])) \o "@" \o ToString(l) : s \in P}])>>)
     ELSE LET f == FailingRec(r)
          IN f = {} \/ PrintT(<<"REJECT", ToJson([id |-> r.id, failing |-> f])>>)
 =============================================================================
